@@ -20,6 +20,8 @@ pub enum Inner {
     Stateful { calls: usize },
     /// every atom feels a gradient of the same norm `g` along x, whatever the geometry; the energy is constant
     ConstNorm { g: f64 },
+    /// a flat energy and a constant gradient, each gradient request taking `ms` milliseconds: the walk's length is counted in steps, not in time
+    Slow { ms: u64 },
     /// the first gradient request is answered with norm `g` on every atom, all later ones with zero; the energy falls with every request
     Kick { calls: usize, g: f64 },
 }
@@ -55,6 +57,7 @@ impl Forcefield for Recorder {
             Inner::Stateful { calls } => { *calls += 1; (*calls as f64 * 0.7).sin() * 3.0 }
             Inner::ConstNorm { .. } => 1.0,
             Inner::Kick { calls, .. } => -(*calls as f64),
+            Inner::Slow { .. } => 1.0,
         };
         self.log.push(Event::E(xs, e));
         e
@@ -73,6 +76,7 @@ impl Forcefield for Recorder {
             Inner::ZeroGrad => xs.iter().map(|_| 0.0).collect(),
             Inner::Stateful { calls } => { *calls += 1; let c = *calls as f64; xs.iter().enumerate().map(|(i, _)| 5.0 * ((c + i as f64) * 0.37).cos() + 0.2).collect() }
             Inner::ConstNorm { g } => xs.iter().enumerate().map(|(i, _)| if i % 3 == 0 { *g } else { 0.0 }).collect(),
+            Inner::Slow { ms } => { std::thread::sleep(std::time::Duration::from_millis(*ms)); xs.iter().enumerate().map(|(i, _)| if i % 3 == 2 { 0.7 } else { 0.0 }).collect() }
             Inner::Kick { calls, g } => { *calls += 1; let first = *calls == 1; xs.iter().enumerate().map(|(i, _)| if first && i % 3 == 1 { *g * (1.0 + (i / 3) as f64) } else { 0.0 }).collect() }
         };
         self.log.push(Event::G(xs, g.clone()));
@@ -290,6 +294,12 @@ pub fn run(out: &mut Out, seed: u64, tier: &str) {
         run_one(out, &format!("flat-energy on {}", start.name), start, Inner::Flat, Some(25), &mut stats);
         run_one(out, &format!("const-norm 0.4 on {}", start.name), start, Inner::ConstNorm { g: 0.4 }, None, &mut stats);
         if let Some(mol) = catch(|| start.build()) { for kind in ["uff", "rb"] { if let Some(ff) = FF::build(kind, &mol) { run_one(out, &format!("{}:{}", kind, start.name), start, Inner::Real(ff), None, &mut stats); } } }
+    }
+    // slow answers: 500 steps are 500 steps however long they take (thorough: a 35 s run; with hints: runs of about 1.3 x each small
+    // integer the changed lines mention, read as seconds, at most 75 s)
+    if tier == "thorough" { run_one(out, "slow 70 ms per gradient, default budget", &base, Inner::Slow { ms: 70 }, None, &mut stats); }
+    for &k in hints().ints.iter().filter(|k| **k >= 2 && **k <= 57).take(2) {
+        run_one(out, &format!("slow force field: a run of about {} s (hinted)", (k as f64 * 1.3) as u64), &base, Inner::Slow { ms: ((k as f64 * 1300.0) / 500.0).ceil() as u64 }, None, &mut stats);
     }
     run_one(out, "budget-0", &base, Inner::Flat, Some(0), &mut stats);
     run_one(out, "budget-1", &base, Inner::Flat, Some(1), &mut stats);
